@@ -9,7 +9,7 @@ Every call site carries a unique integer marker as its (only) argument.
 """
 import ast
 import copy
-from typing import Iterable  # noqa: F401
+from typing import Iterable, Optional  # noqa: F401
 
 from hypothesis import strategies as st
 
@@ -31,8 +31,8 @@ ASSUMPTIONS = [
 ]
 BUDGET = {"quick": (6, 800), "thorough": (16, 6000)}
 
-KEYS = ["cls:Evt", "cls:Jet", "cls:Trk", "m:Evt.jets", "m:Evt.met", "m:Jet.pt", "m:Jet.trks", "m:Trk.pt", "fn", "prop:Jet.attr", "cls:Base", "m:Base.eta", "fn2", "m:Jet.calib"]
-METHODS = {"Base": [("eta", "float")], "Evt": [("met", "float"), ("jets", "Iterable[Jet]")], "Jet": [("pt", "float"), ("trks", "Iterable[Trk]"), ("calib", "float")], "Trk": [("pt", "float")]}
+KEYS = ["cls:Evt", "cls:Jet", "cls:Trk", "m:Evt.jets", "m:Evt.met", "m:Jet.pt", "m:Jet.trks", "m:Trk.pt", "fn", "prop:Jet.attr", "cls:Base", "m:Base.eta", "fn2", "m:Jet.calib", "m:Evt.lead"]
+METHODS = {"Base": [("eta", "float")], "Evt": [("met", "float"), ("jets", "Iterable[Jet]"), ("lead", "Optional[Jet]")], "Jet": [("pt", "float"), ("trks", "Iterable[Trk]"), ("calib", "float")], "Trk": [("pt", "float")]}
 BASES = {"Jet": "Base", "Trk": "Base"}  # Jet and Trk inherit eta() from Base
 
 
@@ -68,6 +68,9 @@ def _val(draw, var, cls, depth, names, ctr, outer=()):
         return ["bin", draw(st.sampled_from(["+", "*"])), mine, ["site", ["var", ovar], ocls, _scalar_of(draw, ocls), mark()]]
 
     c = draw(st.integers(0, 9)) if depth > 0 else draw(st.integers(0, 1))
+    if cls == "Evt" and depth > 0 and draw(st.integers(0, 9)) == 0:
+        # an object that may be missing (a method annotated Optional[Jet]): a Jet as far as methods and callbacks go
+        return ["site", ["site", ["var", var], "Evt", "lead", mark()], "Jet", _scalar_of(draw, "Jet"), mark()]
     if c <= 1:
         return ["site", ["var", var], cls, _scalar_of(draw, cls), mark()]
     if c <= 5 and cls in CHILD:
@@ -317,7 +320,7 @@ def build(cbs, log):
 
     from typing import Callable
 
-    ns = {"Iterable": Iterable, "Callable": Callable, "func_adl_callback": func_adl_callback, "func_adl_parameterized_call": func_adl_parameterized_call}
+    ns = {"Iterable": Iterable, "Optional": Optional, "Callable": Callable, "func_adl_callback": func_adl_callback, "func_adl_parameterized_call": func_adl_parameterized_call}
     src = []
     for cls in ("Base", "Trk", "Jet", "Evt"):
         if cbs.get(f"cls:{cls}"):
